@@ -1,0 +1,39 @@
+//go:build verif
+
+package partregistry
+
+import "github.com/jdillenkofer/pithos/internal/storage/metadatapart/partstore"
+
+// verifRefsCountEveryOccurrence (ghost scenario, bounded): the references built from a list of part ids add, for each
+// part, exactly as many references as the list names it - a part listed twice (a deduplicated object holds the same
+// part in two rows) gets two - and name no other part.
+func verifRefsCountEveryOccurrence(picks []uint8) bool {
+	var ids []partstore.PartId
+	want := map[partstore.PartId]int64{}
+	for _, p := range picks {
+		b := make([]byte, 16)
+		b[15] = p % 4 // four distinct parts, so that repetitions are frequent
+		id, err := partstore.NewPartIdFromBytes(b)
+		if err != nil {
+			return false
+		}
+		ids = append(ids, *id)
+		want[*id]++
+	}
+	got := map[partstore.PartId]int64{}
+	for _, r := range RefsFromPartIds(ids) {
+		if _, dup := got[r.PartId]; dup {
+			return false // one entry per part
+		}
+		got[r.PartId] = r.Delta
+	}
+	if len(got) != len(want) {
+		return false
+	}
+	for id, n := range want {
+		if got[id] != n {
+			return false
+		}
+	}
+	return true
+}
